@@ -321,7 +321,7 @@ func c16GenDoc(r *hx.RNG, stream string) c16Case {
 		} else if r.Chance(1, 10) {
 			firstTTL = 0 // hops whose TTL was never stamped
 		}
-		oddRun := r.Chance(1, 8)   // byte strings that are not addresses (never produced by ToHops)
+		oddRun := r.Chance(1, 8) // byte strings that are not addresses (never produced by ToHops)
 		allEmpty := r.Chance(1, 10)
 		for j := 0; j < nh; j++ {
 			kind := hx.Pick(r, c16AddrKinds[:5])
